@@ -1,6 +1,10 @@
 package props
 
-import "vh/gen"
+import (
+	"math/rand"
+
+	"vh/gen"
+)
 
 // Hand-written seed corpora and dictionaries (not the unit-test tables). They feed the mutational
 // byte-string generators; the grammar generators live next to the properties that use them.
@@ -178,4 +182,61 @@ var langs = map[string]langInfo{
 	"xml":  {xmlCorpus, xmlDict},
 	"json": {jsonCorpus, jsonDict},
 	"js":   {jsCorpus, jsDict},
+}
+
+// generatedDoc writes one well-formed document of the language with the structural generators (the same that give
+// C03–C11 their ground truth); used as raw material for hostile inputs that reach deep parser states.
+func generatedDoc(r *rand.Rand, lang string) []byte {
+	switch lang {
+	case "js":
+		prog := gen.JSProgram(r, gen.JSOpts{CtxNames: r.Intn(2) == 0, Budget: 5 + r.Intn(60)})
+		s, _ := gen.JSSpell(prog, gen.JSStyle{Parens: r.Intn(3), Semi: r.Intn(3), WS: r.Intn(3), Seed: r.Int63(), Bang: []int{0, 0, 15}[r.Intn(3)]})
+		return []byte(s)
+	case "css":
+		if r.Intn(2) == 0 {
+			s, _ := gen.CSSSequence(r, 1+gen.SmallLen(r, 40))
+			return []byte(s)
+		}
+		s, _ := gen.CSSSheet(r, r.Intn(2) == 0)
+		return []byte(s)
+	case "html":
+		o := gen.HTMLOpts{}
+		if v := r.Intn(4); v > 0 {
+			o.Tmpl = [][2]string{htmlDialects["go"], htmlDialects["ejs"], htmlDialects["php"]}[v-1]
+		}
+		s, _ := gen.HTMLDoc(r, o)
+		return []byte(s)
+	case "xml":
+		s, _ := gen.XMLDoc(r)
+		return []byte(s)
+	case "json":
+		doc, _ := gen.JSONSpell(gen.JSONDoc(r, 4), "")
+		return doc
+	}
+	return nil
+}
+
+// hostileInput: a hostile byte string for the language — two times in three built from the hand-written corpus and
+// dictionary, otherwise from a generated well-formed document that is kept, mutated, truncated or spliced.
+func hostileInput(r *rand.Rand, lang string, maxLen int) []byte {
+	li := langs[lang]
+	if r.Intn(3) > 0 {
+		return gen.Hostile(r, li.corpus, li.dict, maxLen)
+	}
+	b := generatedDoc(r, lang)
+	switch r.Intn(6) {
+	case 0:
+		// as generated
+	case 1:
+		b = b[:r.Intn(len(b)+1)]
+	case 2:
+		c := generatedDoc(r, lang)
+		b = append(append([]byte(nil), b[:r.Intn(len(b)+1)]...), c[r.Intn(len(c)+1):]...)
+	default:
+		b = gen.Mutate(r, b, li.dict, 1+r.Intn(3))
+	}
+	if len(b) > maxLen {
+		b = b[:maxLen]
+	}
+	return b
 }
